@@ -70,7 +70,15 @@ func (a *app) OfferSnapshot(req abci.RequestOfferSnapshot) abci.ResponseOfferSna
 	case a.genuine(s) || a.w.scn.App.AcceptAny:
 		verdict = "ACCEPT"
 	}
-	if v, ok := a.w.scn.App.OfferScript[n]; ok {
+	for ci, v := range a.w.scn.App.OfferBySnap {
+		if ci >= 0 && ci < len(a.w.scn.Catalog) {
+			c := a.w.scn.Catalog[ci]
+			if c.Height == s.Height && c.Format == s.Format && c.Chunks == s.Chunks && c.Hash == hexs(s.Hash) && c.Meta == hexs(s.Metadata) {
+				verdict = v
+			}
+		}
+	}
+	if v, ok := a.w.scn.App.OfferScript[n]; ok && v != "" {
 		verdict = v
 	}
 	a.mu.Lock()
@@ -125,6 +133,11 @@ func (a *app) ApplySnapshotChunk(req abci.RequestApplySnapshotChunk) abci.Respon
 		}
 		if ov.RejectSelf && req.Sender != "" {
 			res.RejectSenders = append(res.RejectSenders, req.Sender)
+		}
+		if ov.RejectAdvertisers {
+			for _, p := range a.w.advertisersOf(cur) {
+				res.RejectSenders = append(res.RejectSenders, string(a.w.liars[p].id))
+			}
 		}
 		for _, p := range ov.RejectPeers {
 			if p >= 0 && p < len(a.w.liars) {
